@@ -91,3 +91,18 @@ void h_read_rawcells(void) {
     (void)r;
 }
 #endif
+
+#ifdef VF_ENTRY_h_gds_info
+static LibraryInfo c18_info;
+void h_gds_info(void) {
+    VF_IN(u64, IN_len); VF_IN_ARR(IN_tape); VF_IN(u8, IN_openfail);
+#ifdef VF_HAS_error_logger
+    error_logger = NULL;
+#endif
+    char *filename = (char *)vf_tape_file();
+    memset(&c18_info, 0, sizeof c18_info);
+    LibraryInfo *info = &c18_info;
+    VF_CALL_R(ErrorCode, r, gds_info, filename, info);
+    (void)r;
+}
+#endif
